@@ -56,15 +56,22 @@ Proof. exact control_refusal_queues_nothing. Qed.
 Theorem C02_force_skips_controls_only : forall ctl t os name mv ex, do_req ctl t os (TPlace name mv ex true) = do_req true t os (TPlace name mv ex true).
 Proof. exact force_skips_controls_only. Qed.
 
-(* REFUTED (finding F-C02-1): "a refused cancel/update/replace leaves the order exactly as it was" - a control that
-   refuses marks the LIVE order VIOLATION.  (finding F-C02-2): placing an order that is already in the blotter sets it
-   PENDING and only then raises. *)
+(* a refused cancel / update / replace leaves every placed order (and the transaction) exactly as it was.  This was REFUTED on the
+   pinned tree (finding F-C02-1: the control marked the live order VIOLATION) and holds since the repair (fix: commit 2b78b6a in /repo). *)
+Theorem C02_refused_request_changes_nothing : forall ctl t os r t' os', do_req ctl t os r = (t', os', TRefused) ->
+  (match r with TPlace _ _ _ _ => False | _ => True end) -> (forall o, In o os -> to_status o <> SNone) -> t' = t /\ os' = os.
+Proof. exact control_refusal_leaves_placed_orders. Qed.
+Print Assumptions C02_refused_request_changes_nothing.
+
+(* still REFUTED (finding F-C02-2): placing an order that is already in the blotter sets it PENDING and only then raises. *)
 Definition c02_live : tord := {| to_name := 1; to_status := SExecutable; to_bet := true; to_type := TLimit; to_persist := PLapse; to_price := 20000;
                                  to_remaining := 500; to_in_blotter := true; to_client := 0; to_red := None; to_newprice := None; to_ctx := true |}.
 Theorem C02_refused_noop_refuted :
-  (let '(_, os', res) := do_req false (txn0 0) [c02_live] (TCancel 1 None false) in (map to_status os', res)) = ([SViolation], TRefused) /\
   (let '(_, os', res) := do_req true (txn0 0) [c02_live] (TPlace 1 None true false) in (map to_status os', res)) = ([SPending], TRaisedPlaced).
-Proof. vm_compute. split; reflexivity. Qed.
+Proof. vm_compute. reflexivity. Qed.
+Example C02_refused_request_example :
+  (let '(_, os', res) := do_req false (txn0 0) [c02_live] (TCancel 1 None false) in (map to_status os', res)) = ([SExecutable], TRefused).
+Proof. vm_compute. reflexivity. Qed.
 Print Assumptions C02_refused_noop_refuted.
 
 (* the per-call limits are regenerated from the source (betfairlightweight order_limits) *)
